@@ -43,7 +43,7 @@ ASSUMPTIONS = [
 
 TEMPERATURE = 0.5
 STUB_EXPM = "oqupy.system.expm -> F(argument): fresh symbolic (Hermitian) matrix, argument recorded"
-STUB_SVD = "oqupy.backends.tempo_backend.svd -> exact non-truncating factorisation M = M.1.I"
+STUB_SVD = "oqupy.backends.tempo_backend.svd -> exact non-truncating factorisation with a fixed complex gauge: M = (M X^-1).1.X resp. X.1.(X^-1 M), X = 1 + iN"
 
 
 def _amax(a, *args, **kw):
@@ -58,7 +58,34 @@ def _amax(a, *args, **kw):
     return float(max(v.re for v in vals))
 
 
-SYM_EXTRA = {"oqupy.backends.tempo_backend.amax": _amax}
+def _gauge(n):
+    """fixed concrete invertible COMPLEX matrix with an exact inverse: X = 1 + i N (N = ones
+    on the first superdiagonal), X^-1 = sum_k (-i N)^k"""
+    X, Xi = sym.obj_eye(n), sym.obj_eye(n)
+    for j in range(n):
+        for k in range(1, n - j):
+            if k == 1:
+                X[j, j + 1] = S(0, 1)
+            Xi[j, j + k] = S.of((-1j) ** k)
+    return X, Xi
+
+
+def _adversarial_svd(theta, *a, **kw):
+    """stand-in for scipy.linalg.svd inside the documented contract u.diag(s).vh = theta
+    only: BOTH factors complex and non-trivial, theta = (theta X^-1).1.X for tall theta,
+    X.1.(X^-1 theta) otherwise.  (Orthonormality of u, vh is not provided: the value of the
+    network must not depend on the gauge.)  A dagger instead of a transpose, or a factor
+    absorbed on the wrong side, changes the result."""
+    L, R = theta.shape
+    ones = np.array([S(1)] * min(L, R), dtype=object)
+    if L >= R:
+        X, Xi = _gauge(R)
+        return theta.dot(Xi), ones, X
+    X, Xi = _gauge(L)
+    return X, ones, Xi.dot(theta)
+
+
+SYM_EXTRA = {"oqupy.backends.tempo_backend.amax": _amax, "oqupy.backends.tempo_backend.svd": _adversarial_svd}
 
 
 def _install_array_division():
@@ -115,11 +142,12 @@ def mpow(M, k, inp):
     return out
 
 
-def make_bath(alpha=0.0, d=2):
+def make_bath(alpha=0.0, d=2, coupling=None):
     """concrete real Bath (built outside the symbolic environment: Bath diagonalises its
-    coupling operator with LAPACK); coupling S_z of spin (d-1)/2"""
+    coupling operator with LAPACK); coupling S_z of spin (d-1)/2 unless a diagonal is given"""
     corr = oqupy.PowerLawSD(alpha=alpha, zeta=1, cutoff=1.0, cutoff_type="exponential", temperature=TEMPERATURE)
-    return oqupy.Bath(np.diag([(d - 1) / 2.0 - k for k in range(d)]), corr)
+    diag = [(d - 1) / 2.0 - k for k in range(d)] if coupling is None else list(coupling)
+    return oqupy.Bath(np.diag(np.array(diag, dtype=float)), corr)
 
 
 def _valid_eq(a, b):
@@ -379,17 +407,18 @@ class HermitianCoupled(Case):
     env = {"extra": dict(SYM_EXTRA, **{"oqupy.backends.tempo_backend.exp": _real_exp})}
     timeout_s = 600
 
-    def __init__(self, n_steps):
-        self.n = n_steps
-        self.id = "H3/hermitian_coupled_n%d" % n_steps
-        self.bounds = {"d": 2, "n_steps": n_steps, "coupling": "symbolic real coefficients"}
+    def __init__(self, n_steps, coupling=(0.5, -0.5)):
+        self.n, self.coupling = n_steps, tuple(coupling)
+        self.id = "H3/hermitian_coupled_n%d%s" % (n_steps, "" if self.coupling == (0.5, -0.5) else "_" + _tag(coupling))
+        self.bounds = {"d": len(coupling), "n_steps": n_steps, "coupling_diagonal": list(coupling),
+                       "coupling": "symbolic real coefficients"}
 
     def run(self, inp):
-        n = self.n
-        G = herm(inp, "G")
+        n, d = self.n, len(self.coupling)
+        G = herm(inp, "G", d=d)
         cs = [inp.real("c%d" % k) for k in range(n + 1)]
-        diag = np.array([0.5, -0.5])
-        b = TIBaseBackend(2, 1.0e-14, G, lambda k: cs[k], (-diag, diag, np.zeros(2)), max_step=n)
+        diag = np.array(self.coupling, dtype=float)
+        b = TIBaseBackend(d, 1.0e-14, G, lambda k: cs[k], (-diag, diag, np.zeros(d)), max_step=n)
         b.initialise()
         for _ in range(n - 2):
             b.compute_step()
@@ -397,6 +426,10 @@ class HermitianCoupled(Case):
         for k, st in enumerate(b.data):
             obs.append(Ob.eq("state %d Hermitian" % k, st, _dagger(st)))
         return obs
+
+
+def _tag(diag):
+    return "_".join(("%g" % x).replace("-", "m").replace(".", "p") for x in diag)
 
 
 class UniqueLocal(Case):
@@ -510,11 +543,11 @@ class ZRotation(Case):
     env = {"extra": dict(SYM_EXTRA, **{"oqupy.backends.tempo_backend.exp": _real_exp})}
     timeout_s = 600
 
-    def __init__(self, n_steps):
+    def __init__(self, n_steps, coupling=None):
         self.n = n_steps
-        self.id = "H1/zrot_n%d" % n_steps
+        self.id = "H1/zrot_n%d%s" % (n_steps, "" if coupling is None else "_" + _tag(coupling))
         self.bounds = {"d": 2, "n_steps": n_steps, "coupling": "symbolic (eta uninterpreted)"}
-        self.bath = make_bath(0.1)
+        self.bath = make_bath(0.1, coupling=coupling)
 
     def run(self, inp):
         import oqupy.bath_correlations as bc
@@ -597,11 +630,13 @@ def _dagger(m):
 def cases(tier):
     cs = [Orient(2), Orient(3), Orient(2, cplx=False), Orient(3, cplx=False), Wiring(2), Wiring(3), Repeat(3),
           Orient(2, d=3), Orient(2, cplx=False, d=3), Normalised("generic"), Normalised("hermitian"), Coefficients(3), HermitianCoupled(2), HermitianCoupled(3), ZRotation(2), ZRotation(3),
-          UniqueLocal(3, False), UniqueLocal(3, True), Degenerate((1, 1, 0), 2), Degenerate((0.5, -0.5, 0.5), 3),
+          HermitianCoupled(2, (1, 0)), HermitianCoupled(3, (1, 0)), HermitianCoupled(2, (1, 0, -2)), ZRotation(2, (1, 0)),
+          ZRotation(3, (1, 0)), UniqueLocal(3, False), UniqueLocal(3, True), Degenerate((1, 1, 0), 2), Degenerate((0.5, -0.5, 0.5), 3),
           Degenerate((1, 1, 0), 3)]
     if tier == "thorough":
         cs += [Orient(4), Orient(5), Orient(4, cplx=False), Wiring(4), Repeat(4), Repeat(2), HermitianCoupled(4), ZRotation(4),
                Orient(3, d=3), Orient(3, cplx=False, d=3), Orient(4, cplx=False, d=3),
+               HermitianCoupled(4, (1, 0)), HermitianCoupled(3, (1, 0, -2)), ZRotation(4, (1, 0)),
                UniqueLocal(4, False), UniqueLocal(4, True), Degenerate((0, 1, 1), 3), Degenerate((0.5, 0.5, -0.5, -0.5), 2),
                Degenerate((0.5, 0.5, -0.5, -0.5), 3), Degenerate((0.5, -0.5, 0.5, -0.5), 3), Degenerate((1, 0, 1), 4)]
     return cs
